@@ -24,6 +24,7 @@ def main():
         with open(a.replay) as f:
             rp = json.load(f)
         specs = mod.replay_specs(rp)
+        os.environ["ASIMAP_VERIF_REPLAYING"] = "1"  # one case: no coverage floors, evidence file of the check left alone
         tier = rp.get("tier", a.tier)
         seed = rp.get("seed", seed)
     else:
